@@ -14,6 +14,9 @@ from numpy import array
 
 JSON, SIMPLE = "JSONGrammar", "SimpleGrammar"
 
+# directory for the files some constructors need (templates, scripts); set by the check to its work directory
+WORK = None
+
 
 # ------------------------------------------------------------------ importable user callables (picklable)
 def py_func(x=0.0, p=1.0):
@@ -238,6 +241,132 @@ def one(v):
     return array([float(v)])
 
 
+# ------------------------------------------------------------------ bare grammars, grammar subclasses
+def _grammar(cls_name, sub=False):
+    """A grammar with the three inputs x (caller), p (the defaulted one), q (another default)."""
+    def make():
+        cls = _grammar_class(cls_name, sub)
+        g = cls("g")
+        g.update_from_names(["x", "p", "q"])
+        g.defaults["q"] = array([0.625])
+        return g
+    return make
+
+
+_SUBCLASSES = {}
+
+
+def _grammar_class(cls_name, sub):
+    from gemseo.core.grammars.factory import GrammarFactory
+
+    base = GrammarFactory().get_class(cls_name)
+    if not sub:
+        return base
+    return {"JSONGrammar": UserJSONGrammar, "SimpleGrammar": UserSimpleGrammar}[cls_name]
+
+
+def _define_user_grammars():
+    """User-defined grammar classes (module-level: picklable by reference), as a plugin or a user would write."""
+    from gemseo.core.grammars.json_grammar import JSONGrammar
+    from gemseo.core.grammars.simple_grammar import SimpleGrammar
+
+    class UserJSONGrammar(JSONGrammar):
+        """A JSON grammar of a user: nothing overridden."""
+
+    class UserSimpleGrammar(SimpleGrammar):
+        """A simple grammar of a user: nothing overridden."""
+
+    for c in (UserJSONGrammar, UserSimpleGrammar):
+        c.__module__ = __name__
+        c.__qualname__ = c.__name__
+    return UserJSONGrammar, UserSimpleGrammar
+
+
+UserJSONGrammar, UserSimpleGrammar = _define_user_grammars()
+
+
+def _user_grammar_discipline():
+    """A discipline whose grammars are instances of a user's JSONGrammar subclass."""
+    return UserGrammarDiscipline()
+
+
+def _define_user_discipline():
+    from gemseo.core.discipline.discipline import Discipline
+
+    class UserGrammarDiscipline(Discipline):
+        def __init__(self):
+            super().__init__(name="UG")
+            for attr, names in (("input_grammar", ["x", "p", "q"]), ("output_grammar", ["y", "z"])):
+                g = UserJSONGrammar(f"UG_{attr}")
+                g.update_from_names(names)
+                setattr(self.io, attr, g)
+            self.io.input_grammar.defaults.update({"x": array([0.0]), "p": array([0.0]), "q": array([0.625])})
+
+        def _run(self, input_data):
+            x, p, q = input_data["x"], input_data["p"], input_data["q"]
+            return {"y": 2.0 * x + 3.0 * p * p - q + x * p, "z": x - 4.0 * p + q / 7.0}
+
+        def _compute_jacobian(self, input_names=(), output_names=()):
+            x, p = self.io.data["x"], self.io.data["p"]
+            self.jac = {"y": {"x": array([[2.0 + p[0]]]), "p": array([[6.0 * p[0] + x[0]]]), "q": array([[-1.0]])},
+                        "z": {"x": array([[1.0]]), "p": array([[-4.0]]), "q": array([[1.0 / 7.0]])}}
+
+    UserGrammarDiscipline.__module__ = __name__
+    UserGrammarDiscipline.__qualname__ = "UserGrammarDiscipline"
+    return UserGrammarDiscipline
+
+
+UserGrammarDiscipline = _define_user_discipline()
+
+
+# ------------------------------------------------------------------ a discipline around an executable
+EXE_SCRIPT = """import json, sys
+data = json.load(open(sys.argv[1]))
+x, p = data["x"], data["p"]
+json.dump({"y": 2.0 * x + 3.0 * p * p + x * p, "z": x - p}, open(sys.argv[2], "w"), indent=4, sort_keys=True)
+"""
+
+
+def _disc_from_exe():
+    """DiscFromExe with its default arguments; the 'external tool' is this interpreter running a 4-line script."""
+    import sys
+    import tempfile
+    from pathlib import Path
+
+    from gemseo.disciplines.wrappers.disc_from_exe import DiscFromExe
+
+    root = Path(WORK or tempfile.gettempdir()) / "c20_exe"
+    runs = root / "runs"
+    runs.mkdir(parents=True, exist_ok=True)
+    if not (root / "run.py").exists():
+        (root / "run.py").write_text(EXE_SCRIPT)
+        (root / "in.tpl").write_text('{\n    "x": GEMSEO_INPUT{x::0.5},\n    "p": GEMSEO_INPUT{p::0.0}\n}\n')
+        (root / "out.tpl").write_text('{\n    "y": GEMSEO_OUTPUT{y::1.0},\n    "z": GEMSEO_OUTPUT{z::0.5}\n}\n')
+    return DiscFromExe(root / "in.tpl", root / "out.tpl", runs, f"{sys.executable} {root / 'run.py'} in.json out.json",
+                       "in.json", "out.json", clean_after_execution=True)
+
+
+_DATASETS = {}
+
+
+def _data_driven_scalable():
+    """gemseo.problems.mdo.scalable.data_driven.discipline.ScalableDiscipline (the factory name 'ScalableDiscipline'
+    resolves to the parametric class of the same name: this one is only reachable by import)."""
+    from gemseo.problems.mdo.scalable.data_driven.discipline import ScalableDiscipline
+
+    if "mission" not in _DATASETS:
+        from gemseo import sample_disciplines
+        from gemseo.problems.mdo.sobieski.core.design_space import SobieskiDesignSpace
+        from gemseo.problems.mdo.sobieski.disciplines import SobieskiMission
+
+        with grammar_type(JSON):   # (the learning data are an input of the constructor, not the object under test)
+            d = SobieskiMission()
+            ds = SobieskiDesignSpace()
+            ds.filter(list(d.io.input_grammar.names))
+            _DATASETS["mission"] = sample_disciplines([d], ds, ["y_4"], algo_name="DiagonalDOE", n_samples=10)
+    return ScalableDiscipline("ScalableDiagonalModel", _DATASETS["mission"])
+
+
 # ------------------------------------------------------------------ functions, design spaces, problems
 def _design_space():
     from gemseo.algos.design_space import DesignSpace
@@ -372,6 +501,11 @@ def catalogue():
                    _factory("MaterialModelInterpolation", e0=1.0, penalty=3.0, n_x=3, n_y=2, empty_elements=[],
                             full_elements=[]),
                    xname="xPhys", pname=None, xvals=[np.full(6, 0.5), np.linspace(0.2, 0.9, 6)], jac_in_run=True))
+    E.append(Entry("ScalableDiscipline(data-driven)", _data_driven_scalable, cost=3, factory="-"))
+    E.append(Entry("DiscFromExe", _disc_from_exe, has_jac=False, cost=3, grammars=(JSON,), caches=("simple",),
+                   **_ap()))
+    E.append(Entry("Discipline(user grammar class)", _user_grammar_discipline, grammars=(JSON,), factory="-",
+                   **_ap(pvals=(0.0, 0.75))))
     E.append(Entry("SurrogateDiscipline", _surrogate, xname="x", pname="p", xvals=[one(0.5), one(-0.25)],
                    pvals=None, cost=2))
     # --- scenarios, functions, design spaces, problems (not discipline-factory classes)
@@ -384,6 +518,10 @@ def catalogue():
                   ("MDOQuadraticFunction", _quadratic_function), ("MDOFunction(composed)", _composed_function)):
         E.append(Entry(n, mk, family="function", adapter="function", factory="-", caches=("none",), grammars=(JSON,),
                        xvals=xs))
+    for n, sub in (("JSONGrammar", False), ("SimpleGrammar", False), ("SimplerGrammar", False), ("PydanticGrammar", False),
+                   ("JSONGrammar", True), ("SimpleGrammar", True)):
+        E.append(Entry(f"{n}(user subclass)" if sub else n, _grammar(n, sub), family="grammar", adapter="grammar",
+                       factory="-", caches=("none",), grammars=(JSON,), has_jac=False, **_ap(pvals=(0.0, 0.75))))
     E.append(Entry("OptimizationProblem", _problem(True), family="problem", adapter="problem", factory="-",
                    caches=("db",), grammars=(JSON,), xvals=xs))
     E.append(Entry("DesignSpace", _design_space, family="space", adapter="space", factory="-", caches=("none",),
@@ -429,7 +567,6 @@ def catalogue():
 
 
 SKIPPED = {
-    "DiscFromExe": "needs an external executable and template files",
     "JobSchedulerDisciplineWrapper": "needs a job scheduler (external tool)",
     "LSF": "needs the LSF job scheduler (external tool)",
     "SLURM": "needs the SLURM job scheduler (external tool)",
